@@ -13,11 +13,11 @@ import (
 	"github.com/fsnotify/fsnotify"
 
 	"github.com/taskctl/taskctl/internal/vh/common"
-	"github.com/taskctl/taskctl/vrt"
 	"github.com/taskctl/taskctl/internal/watch"
 	"github.com/taskctl/taskctl/pkg/output"
 	"github.com/taskctl/taskctl/pkg/runner"
 	"github.com/taskctl/taskctl/pkg/task"
+	"github.com/taskctl/taskctl/vrt"
 )
 
 // ---- C20 (events): the real Watcher.Run / handle / Close with injected fsnotify events ----
